@@ -624,6 +624,8 @@ class AgentsMgt(MessagePassingComputation):
 
         # To wait for agent when stopping
         self._all_agt_stopped = threading.Event()
+        # Set once the agents have been requested to stop
+        self._stop_requested = False
 
         # metrics
         # Storing metrics for agent across several cycles :
@@ -714,6 +716,12 @@ class AgentsMgt(MessagePassingComputation):
         if evt == 'agent_added':
             self.logger.info('Receiving registration %s from agent %s', evt,
                              agent)
+            if self._stop_requested:
+                # This agent registers after all agents have been requested
+                # to stop (e.g. an agent hosting no computation, that nobody
+                # waited for): it must stop too.
+                self._send_mgt_msg(agent, StopAgentMessage())
+                return
             # setup metrics collection on agent.
             self._send_mgt_msg(
                 agent, SetMetricsModeMessage(self._collect_moment,
@@ -1183,6 +1191,7 @@ class AgentsMgt(MessagePassingComputation):
 
         Careful : This must be called from the orchestrator's agent thread.
         """
+        self._stop_requested = True
         active_agents = self.discovery.agents()
         if not active_agents:
             self.logger.info('No agents to stop')
